@@ -235,7 +235,10 @@ class Subject:
 def build_subject(case):
     qlasskit, qbqm, bo, Arg = _imports()
     if case["kind"] in ("prog", "decode"):
-        qf = qlasskit.qlassf(case["src"], to_compile=False)
+        # configuration: the optimizer profile the function is translated with (fast keeps the user's
+        # intermediate definitions and re-bindings in the list to_bqm merges)
+        opt = bo.fastOptimizer if case.get("profile") == "fast" else bo.defaultOptimizer
+        qf = qlasskit.qlassf(case["src"], to_compile=False, bool_optimizer=opt)
         return Subject(list(qf.args), list(qf.expressions), qf)
     if case["kind"] == "direct":
         args = [Arg(n, None, list(bv)) for n, bv in case["args"]]
@@ -444,6 +447,15 @@ SYSTEMATIC = [
     "def f(a: Qchar) -> bool:\n    return a == 'z'",
     "def f(a: Qfixed1_2, b: Qfixed1_2) -> bool:\n    return a > b",
     "def f(a: bool, b: bool, c: bool) -> Qint2:\n    return 1 if a and b else (2 if c else 0)",
+]
+
+# programs whose definition list, under the fast profile, re-binds names and reads them before and after
+REBIND_PROGRAMS = [
+    "def f(a: bool, b: bool, e: bool) -> bool:\n    c = a and b\n    d = c or e\n    c = not a\n    return d and c",
+    "def f(a: bool, b: bool, c: bool) -> Tuple[bool, bool]:\n    t = a ^ b\n    u = t and c\n    t = t or c\n    return (u, t)",
+    "def f(a: bool, b: bool, c: bool) -> bool:\n    x = (a or b) and c\n    a = not a\n    y = (a or b) and c\n    return x ^ y",
+    "def f(a: Qint2, b: bool) -> Qint2:\n    c = a\n    if b:\n        c = a + 1\n    a = c\n    return a",
+    "def f(a: bool, b: bool) -> Tuple[bool, bool, bool]:\n    t = a and b\n    return (t, t, not t)",
 ]
 
 
@@ -701,15 +713,19 @@ def run(ctx: Ctx) -> Result:
     )
     reqs, pending = [], []
     cases = []
-    for src in SYSTEMATIC:
+    for src in SYSTEMATIC + REBIND_PROGRAMS:
         for fmt in FMTS:
             cases.append(dict(kind="prog", src=src, fmt=fmt))
+    for i, src in enumerate(SYSTEMATIC + REBIND_PROGRAMS):  # every program once under the fast profile
+        cases.append(dict(kind="prog", src=src, fmt=FMTS[i % len(FMTS)], profile="fast"))
     n_prog = 2500 if ctx.thorough else 350
     n_direct = 12000 if ctx.thorough else 1500
     for _ in range(n_prog):
         cases.append(dict(kind="prog", src=gen_program(rng), fmt=rng.choice(FMTS)))
     for _ in range(n_direct):
         cases.append(gen_direct(rng))
+    for c in [c for c in cases if c["kind"] == "prog" and "profile" not in c][len(FMTS) * len(SYSTEMATIC)::5]:
+        cases.append(dict(c, profile="fast"))  # drawn last: the streams above see the same random numbers
     for case in cases:
         evaluate_case(ctx, res, case, reqs, pending)
     replies = ctx.model(reqs)
